@@ -71,3 +71,33 @@ Check (C17_established_reachable :
     Forall wf_input ex_events /\
     run s0 ghost0 ex_events = Some (s, g) /\
     s_state s = Established /\ inv s g).
+
+Check (C17_predicates : forall s,
+  (tcp_is_open s = true <-> s_state s <> Closed /\ s_state s <> TimeWait) /\
+  (tcp_is_active s = true <-> s_state s <> Closed /\ s_state s <> TimeWait /\ s_state s <> Listen) /\
+  (tcp_is_listening s = true <-> s_state s = Listen) /\
+  (tcp_may_send s = true <-> s_state s = Established \/ s_state s = CloseWait) /\
+  (tcp_can_recv s = true <-> rb_len (s_rx_buffer s) <> 0) /\
+  (tcp_may_recv s = true <->
+     s_state s = Established \/ s_state s = FinWait1 \/ s_state s = FinWait2 \/ rb_len (s_rx_buffer s) <> 0) /\
+  (tcp_can_send s = true <->
+     (s_state s = Established \/ s_state s = CloseWait) /\ rb_len (s_tx_buffer s) <> rb_cap (s_tx_buffer s))).
+
+Check (C17_failed_call_unchanged : forall cx s ev s' e tags,
+  tcp_step_x cx s ev = Ok (s', XOut (OErr e), tags) -> s' = s).
+
+Check (C17_connect_results : forall cx s v6 ra rp local,
+  match tcp_connect_af cx s v6 ra rp local with
+  | Err 1 => tcp_is_open s = true
+  | Err _ => tcp_is_open s = false /\
+             (rp = 0 \/ ra = 0 \/ le_port local = 0 \/ le_addr local = Some 0 \/
+              (v6 = true /\ le_addr local <> None))
+  | Ok s' => tcp_is_open s = false /\ rp <> 0 /\ ra <> 0 /\ le_port local <> 0 /\
+             tcp_connect cx s ra rp local = Ok s' /\ s_state s' = SynSent
+  | Panic => False
+  end).
+
+Check (C17_step_allowed_all_calls : forall cx s g ev s' out tags,
+  inv s g -> wf_ctx cx -> wf_event_x ev ->
+  tcp_step_x cx s ev = Ok (s', out, tags) ->
+  allowed_x s g cx ev (s_state s') /\ inv s' (ghost_step_x cx s g ev s' out)).
